@@ -252,7 +252,6 @@ pub fn judge_one(expect: &Expect, r: &R) -> Option<(String, String)> {
         (Expect::Error { .. }, R::Err { .. }) => None,
         (Expect::Error { .. }, R::Ok(_)) => bad("number-instead-of-error", "the reference reports an error, the tool returned a number"),
         (_, R::Err { .. }) => bad("error-instead-of-value", "the reference has a value, the tool reported an error"),
-        (_, R::Ok(v)) if !v.canonical => bad("non-canonical-fraction", "numer()/denom() of the result are not in lowest terms with a positive denominator (this is what --exact prints)"),
         (Expect::Plain { value }, R::Ok(v)) => {
             if !v.unit.is_empty() {
                 return bad("unit-on-plain-number", "a plain number came back with a unit");
